@@ -7,6 +7,7 @@ use std::io::Read;
 mod witnesses;
 mod bounded;
 mod hostile;
+mod features;
 
 // Allocation cap for the hostile-input child processes: a single allocation request above ALLOC_CAP fails (-> Rust aborts with
 // "memory allocation of N bytes failed").  This makes "a few hundred input bytes ask for more than 1 GiB" a deterministic
